@@ -1459,3 +1459,11 @@ pub mod tests {
         quickcheck(prop as fn(_) -> _);
     }
 }
+
+#[cfg(feature = "verif-hooks")]
+impl<TNodeId, TVal: Eq> PendingNode<TNodeId, TVal> {
+    /// The key of the pending node (verification hook, read-only).
+    pub fn verif_key(&self) -> &Key<TNodeId> {
+        &self.node.key
+    }
+}
